@@ -398,7 +398,49 @@ func ruleRepMapGet(c *Ctx, r *R) {
 
 // ---- C11 ----
 
+// sliceBoundsRule (part of REP-SLICE): in the SLICE handler the end of the result is
+// either the run-time end operand itself or — only when an instruction operand says the
+// source omitted it (x[i:]) — the length of the operand.  A path that decides "use the
+// length" by looking at the run-time value (j < 0) turns an out-of-range end such as
+// s[:len(s)-1] on an empty slice into a silent success.
+func sliceBoundsRule(c *Ctx, r *R) {
+	m, err := newHndMachine(c)
+	if err != nil {
+		r.undecided("SLICE", "-", err.Error())
+		return
+	}
+	sc := m.sw.ByLabel["codeSlice"]
+	if sc == nil {
+		r.undecided("SLICE", "-", "no handler")
+		return
+	}
+	ps, err := m.single("codeSlice")
+	if err != nil {
+		r.undecided("SLICE", c.Pos(sc.Clause), err.Error())
+		return
+	}
+	n, direct := 0, false
+	for _, p := range ps {
+		for _, t := range p.Push {
+			if t.Op != "call" || t.Name != "Value.Slice" || len(t.Args) != 3 {
+				continue
+			}
+			n++
+			end := t.Args[2].String()
+			cs := strings.Join(p.Conds, " && ")
+			if strings.Contains(end, "Value.Len(") {
+				runtimeTest := strings.Contains(cs, "Value.Int(Top") || strings.Contains(cs, "Top1")
+				r.check(!runtimeTest && strings.Contains(cs, "I."), "SLICE end=len", c.Pos(sc.Clause), "the length is used as the end only under an instruction operand", "the SLICE handler substitutes the operand's length for the end because of the run-time value of the end ("+cs+"): a negative end computed by the script (s[:len(s)-1] on an empty slice, s[:j] with j < 0) silently yields a slice instead of Go's slice-bounds error")
+			} else if end == "Value.Int(Top1)" {
+				direct = true
+			}
+		}
+	}
+	r.check(n >= 1 && direct, "SLICE end", c.Pos(sc.Clause), "the end operand is passed to Slice unchanged", "no path of the SLICE handler slices up to the end operand itself")
+}
+
 func ruleRepSlice(c *Ctx, r *R) {
+	sliceBoundsRule(c, r)
 	one := func(name string) *State {
 		ps := c.pathsOf(name)
 		if len(ps) == 1 {
@@ -809,7 +851,149 @@ func ruleRepStruct(c *Ctx, r *R) {
 
 // ---- C13 ----
 
+// stringDataRule (part of REP-STRING): flattening a value into []Value (the spread of
+// append(b, s...), copy, conversions) must not take the generic Range route for a string:
+// Range yields runes keyed by byte offset.  Value.data has a branch for stringT (or for
+// the string tag) before the Range fallback, and that branch builds the elements with the
+// uint8 constructor from s[i].
+func stringDataRule(c *Ctx, r *R) {
+	fd := c.Func("Value.data")
+	if fd == nil {
+		r.undecided("data", "-", "Value.data not found")
+		return
+	}
+	var rangePos, strPos ast.Node
+	bytes := false
+	for _, h := range c.withHelpers(fd) {
+		ast.Inspect(h.Body, func(n ast.Node) bool {
+			switch x := n.(type) {
+			case *ast.CallExpr:
+				if c.CalleeName(x) == "Value.Range" && rangePos == nil {
+					rangePos = x
+				}
+			case *ast.TypeAssertExpr:
+				if x.Type != nil && types.ExprString(x.Type) == "stringT" && strPos == nil {
+					strPos = x
+				}
+			case *ast.BinaryExpr:
+				if nosp(c.Src(x)) == "v.t==TypeString" && strPos == nil {
+					strPos = x
+				}
+			}
+			return true
+		})
+	}
+	if strPos != nil {
+		// inside the if/switch governed by the string test, elements come from Byte(s[i]) / Uint8(s[i]) or convert(TypeSlice)
+		var scope ast.Node = strPos
+		for p := c.Parent(strPos); p != nil; p = c.Parent(p) {
+			if _, ok := p.(*ast.IfStmt); ok {
+				scope = p
+				break
+			}
+			if _, ok := p.(*ast.CaseClause); ok {
+				scope = p
+				break
+			}
+		}
+		ast.Inspect(scope, func(n ast.Node) bool {
+			if call, ok := n.(*ast.CallExpr); ok {
+				switch c.CalleeName(call) {
+				case "Byte", "Uint8":
+					if len(call.Args) == 1 {
+						if _, isIdx := unparen(call.Args[0]).(*ast.IndexExpr); isIdx {
+							bytes = true
+						}
+					}
+				case "Value.convert":
+					if len(call.Args) == 1 && nosp(c.Src(call.Args[0])) == "TypeSlice" {
+						bytes = true
+					}
+				}
+			}
+			return true
+		})
+	}
+	before := strPos != nil && (rangePos == nil || strPos.Pos() < rangePos.Pos())
+	r.check(before && bytes, "data string->bytes", c.Pos(fd), "a string operand is flattened into its bytes before the Range fallback", "Value.data flattens a string through Range (decoded runes stored at their byte offsets): append(b, \"é\"...) yields [233 nil] typed int32 instead of the bytes [195 169]")
+}
+
+// equalsKindsRule (part of REP-STRING): == dispatches on the left operand's tag; before it
+// reads the right operand's number or asserts its dynamic type it must have looked at the
+// right operand's tag — values of different kinds meet in `any` variables, map values and
+// []any elements, a string's num is 0 (so any(0) == "v" would be true), and a failed type
+// assertion aborts the script.
+func equalsKindsRule(c *Ctx, r *R) {
+	fd := c.Func("Value.Equals")
+	if fd == nil {
+		r.undecided("Equals", "-", "Value.Equals not found")
+		return
+	}
+	ps := c.pathsOf("Value.Equals")
+	n := 0
+	for i, p := range ps {
+		if len(p.Ret) != 1 {
+			continue
+		}
+		ret := p.Ret[0].String()
+		if !strings.Contains(ret, "b.num") && !strings.Contains(ret, "b.value.(") {
+			continue
+		}
+		n++
+		tested := strings.Contains(ret, "b.t") || strings.Contains(condStrings(p), "b.t")
+		r.check(tested, fmt.Sprintf("Equals kinds %d", i), c.Pos(fd), "the right operand's tag is tested before its payload is read", "Value.Equals reads the right operand's payload ("+ret+") on a path that never looked at its tag (path: "+condStrings(p)+"): with operands of different kinds held in `any` values, 0 == \"v\" is true and \"v\" == 0 aborts with an interface-conversion error")
+	}
+	if n < 2 {
+		r.undecided("Equals kinds", c.Pos(fd), "expected at least the numeric and the string comparison paths")
+	}
+	// nil on the left: either the comparison is swapped, or every `x == nil` case has its mirror image
+	swapped, mirrors, nilCases := false, 0, 0
+	for _, p := range ps {
+		cs := condStrings(p)
+		if len(p.Ret) == 1 && strings.HasPrefix(p.Ret[0].String(), "Value.Equals(b, v)") && strings.Contains(cs, "v.t == TypeNil") {
+			swapped = true
+		}
+		if strings.Contains(cs, "(b.t == TypeNil)") && strings.Contains(cs, "base(v.t)") && !strings.Contains(cs, "!((Type.base(v.t)") {
+			nilCases++
+		}
+		if strings.Contains(cs, "(v.t == TypeNil)") && strings.Contains(cs, "base(b.t)") {
+			mirrors++
+		}
+	}
+	r.check(swapped || (nilCases > 0 && mirrors >= nilCases), "Equals nil-left", c.Pos(fd), "nil == x is decided like x == nil", "Value.Equals handles `x == nil` for slices, maps and references but not `nil == x`: with nil on the left a nil slice/map/pointer compares unequal to nil")
+}
+
+// convertNilRule (part of REP-STRING): the conversion to a byte slice takes the bytes of
+// the operand's text (v.String()); that is right for a string and wrong for nil, whose text
+// is "nil" — []byte(nil) must be the nil slice.
+func convertNilRule(c *Ctx, r *R) {
+	fd := c.Func("Value.convert")
+	if fd == nil {
+		r.undecided("convert nil", "-", "Value.convert not found")
+		return
+	}
+	n := 0
+	for _, p := range c.pathsOf("Value.convert") {
+		if len(p.Ret) != 1 || !strings.Contains(p.Ret[0].String(), "Value.String(v)") {
+			continue
+		}
+		cs := condStrings(p)
+		if !strings.Contains(cs, "(t == TypeSlice)") && !strings.Contains(cs, "Type.base(t) == TypeSlice") {
+			continue
+		}
+		n++
+		ok := strings.Contains(cs, "(v.t != TypeNil)") || strings.Contains(cs, "(v.t == TypeString)")
+		r.check(ok, "convert nil", c.Pos(fd), "the text route to bytes is not taken for nil", "Value.convert builds a byte slice from the operand's printed text on a path that does not exclude nil ("+cs+"): []byte(nil) becomes the bytes of \"nil\", so string(append([]byte(nil), s...)) starts with \"nil\"")
+	}
+	if n == 0 {
+		r.undecided("convert nil", c.Pos(fd), "the string -> []byte path of Value.convert was not found")
+	}
+}
+
 func ruleRepString(c *Ctx, r *R) {
+	stringDataRule(c, r)
+	equalsKindsRule(c, r)
+	convertNilRule(c, r)
 	ctors := c.ctorTags()
 	single := func(fn string) *State {
 		ps := c.pathsOf(fn)
